@@ -114,92 +114,7 @@ func hasDec(ds []winDec, want winDec) bool {
 func runC15(p *core.Prog, r *core.Report, tier string) {
 	ds := core.NewDescriber()
 
-	// ---- (a) window loops in the controller ----
-	nWin := 0
-	for _, f := range p.FuncsIn(ctrlRel) {
-		for _, l := range p.Loops(f) {
-			fs, ok := l.Stmt.(*ast.ForStmt)
-			if !ok || fs.Cond == nil {
-				continue
-			}
-			pk := p.PkgOf(f)
-			be, ok := fs.Cond.(*ast.BinaryExpr)
-			if !ok {
-				continue
-			}
-			t := pk.TypesInfo.TypeOf(be.X)
-			if t == nil || !core.IsSlotOrEpoch(t) {
-				continue
-			}
-			// is this a sync committee window? bounds mention firstEpochOfSyncPeriod
-			loV, hiV := loopBoundValues(p, f, fs)
-			if loV == nil || hiV == nil {
-				continue
-			}
-			lod, hid := ds.D(loV), ds.D(hiV)
-			if !lod.MentionsCall("firstEpochOfSyncPeriod") && !hid.MentionsCall("firstEpochOfSyncPeriod") {
-				continue
-			}
-			nWin++
-			construct := core.FnKey(f) + "|sync-window"
-			r.Check(be.Op.String() == "<=", "C15.a", construct+"|inclusive", p.Pos(fs.Pos()), "the loop includes lastSlot (<=)", "the loop condition is '"+be.Op.String()+"', the window's last slot is not covered")
-			los, his := windowBounds(lod), windowBounds(hid)
-			if len(los) == 0 || len(his) == 0 {
-				r.Violate("C15.a", construct+"|bounds-form", p.Pos(fs.Pos()), "window bounds are not of the form FirstSlotOfEpoch(firstEpochOfSyncPeriod(period+k)+j)+c: "+lod.String()+" .. "+hid.String())
-			} else {
-				r.Check(hasDec(los, winDec{0, 0, -1}), "C15.a", construct+"|first-slot", p.Pos(fs.Pos()), "first slot = first slot of the period - 1",
-					fmt.Sprintf("first slot readings %v do not include FirstSlotOfEpoch(firstEpochOfSyncPeriod(period))-1", los))
-				r.Check(len(his) == 1 && his[0] == winDec{1, 0, -2}, "C15.a", construct+"|last-slot", p.Pos(fs.Pos()), "last slot = first slot of the next period - 2",
-					fmt.Sprintf("last slot readings %v: expected exactly FirstSlotOfEpoch(firstEpochOfSyncPeriod(period+1))-2 (the slot before the period's last slot; the next period starts messaging at its first slot - 1)", his))
-				// no reading of the first slot may start before first-1 or skip slots at the start beyond the clamps
-				for _, lo := range los {
-					if lo.pk != 0 || lo.ek != 0 || (lo.sk != -1 && lo.sk != 0) {
-						r.Violate("C15.a", construct+"|first-slot-alt", p.Pos(fs.Pos()), fmt.Sprintf("a path computes the first slot as FirstSlotOfEpoch(firstEpochOfSyncPeriod(period%+d)%+d)%+d", lo.pk, lo.ek, lo.sk))
-					}
-				}
-			}
-			// exits: none; skips: only the current-slot skip
-			ex := l.EarlyExits()
-			r.Check(len(ex) == 0, "C15.a", construct+"|no-early-exit", p.Pos(fs.Pos()), "the window loop is only left by exhaustion", "the window loop can be left early")
-			conts := continuesIn(l)
-			for i, c := range conts {
-				cond := enclosingIfCond(l, c)
-				okc := cond != nil && strings.Contains(types.ExprString(cond), "CurrentSlot()") && strings.Contains(types.ExprString(cond), "notCurrentSlot") && strings.Contains(types.ExprString(cond), "&&")
-				r.Check(okc, "C15.a", fmt.Sprintf("%s|skip#%d", construct, i+1), p.Pos(c.Pos()), "the only skipped slot is the current one when notCurrentSlot is set", "a slot of the window is skipped under condition "+exprOrNone(cond))
-			}
-			// the scheduling / cancelling happens inside
-			hasJob := false
-			for _, g := range core.WithClosures(f) {
-				for _, ci := range core.CallsNamed(g, "ScheduleJob", "CancelJob", "CancelJobIfExists") {
-					if l.Contains(ci.Pos()) {
-						hasJob = true
-					}
-				}
-			}
-			r.Check(hasJob, "C15.a", construct+"|job-per-slot", p.Pos(fs.Pos()), "a job is scheduled/cancelled per slot of the window", "no job is scheduled or cancelled inside the window loop")
-		}
-	}
-	r.Floor("C15.a sync-committee window loops", nWin, 2)
-
-	// ---- (b) guarded subtraction in the functions with window loops ----
-	nSub := 0
-	for _, f := range p.FuncsIn(ctrlRel) {
-		if f.Name() != "scheduleSyncCommitteeMessages" && f.Name() != "refreshSyncCommitteeDutiesForEpochPeriod" && !hasWindowLoop(p, ds, f) {
-			continue
-		}
-		for _, s := range core.UnsignedSubs(f) {
-			nSub++
-			xd, yd := ds.D(s.X), ds.D(s.Y)
-			construct := core.FnKey(f) + "|sub|" + xd.String() + " - " + yd.String()
-			if safeSubForm(xd, yd) {
-				r.Hold("C15.b", construct, p.Pos(s.Pos()), "minuend is FirstSlotOfEpoch(e+k)/firstEpochOfSyncPeriod(p+k), k>=1: cannot wrap")
-				continue
-			}
-			w := core.SubUnguarded(ds, f, s)
-			r.Check(w == nil, "C15.b", construct, p.Pos(s.Pos()), "subtraction is guarded", "unsigned slot/epoch subtraction can wrap (e.g. period 0 of a chain with Altair at genesis): no guard establishes minuend >= subtrahend", p.WitnessText(w)...)
-		}
-	}
-	r.Floor("C15.b subtractions in window functions", nSub, 4)
+	checkSyncWindows(p, r, ds, "C15.a", "C15.b")
 
 	// ---- (c) head root per slot ----
 	if f := p.Func(scmRel, "Service", "Message"); f != nil {
@@ -319,6 +234,97 @@ func runC15(p *core.Prog, r *core.Report, tier string) {
 
 	// ---- (g) fork epoch data flow ----
 	checkForkEpochFlow(p, r, ds, "C15.g")
+}
+
+// checkSyncWindows: the sync-committee slot windows (scheduling and refresh) and their unsigned subtractions.
+func checkSyncWindows(p *core.Prog, r *core.Report, ds *core.Describer, ruleA, ruleB string) {
+	// ---- (a) window loops in the controller ----
+	nWin := 0
+	for _, f := range p.FuncsIn(ctrlRel) {
+		for _, l := range p.Loops(f) {
+			fs, ok := l.Stmt.(*ast.ForStmt)
+			if !ok || fs.Cond == nil {
+				continue
+			}
+			pk := p.PkgOf(f)
+			be, ok := fs.Cond.(*ast.BinaryExpr)
+			if !ok {
+				continue
+			}
+			t := pk.TypesInfo.TypeOf(be.X)
+			if t == nil || !core.IsSlotOrEpoch(t) {
+				continue
+			}
+			// is this a sync committee window? bounds mention firstEpochOfSyncPeriod
+			loV, hiV := loopBoundValues(p, f, fs)
+			if loV == nil || hiV == nil {
+				continue
+			}
+			lod, hid := ds.D(loV), ds.D(hiV)
+			if !lod.MentionsCall("firstEpochOfSyncPeriod") && !hid.MentionsCall("firstEpochOfSyncPeriod") {
+				continue
+			}
+			nWin++
+			construct := core.FnKey(f) + "|sync-window"
+			r.Check(be.Op.String() == "<=", ruleA, construct+"|inclusive", p.Pos(fs.Pos()), "the loop includes lastSlot (<=)", "the loop condition is '"+be.Op.String()+"', the window's last slot is not covered")
+			los, his := windowBounds(lod), windowBounds(hid)
+			if len(los) == 0 || len(his) == 0 {
+				r.Violate(ruleA, construct+"|bounds-form", p.Pos(fs.Pos()), "window bounds are not of the form FirstSlotOfEpoch(firstEpochOfSyncPeriod(period+k)+j)+c: "+lod.String()+" .. "+hid.String())
+			} else {
+				r.Check(hasDec(los, winDec{0, 0, -1}), ruleA, construct+"|first-slot", p.Pos(fs.Pos()), "first slot = first slot of the period - 1",
+					fmt.Sprintf("first slot readings %v do not include FirstSlotOfEpoch(firstEpochOfSyncPeriod(period))-1", los))
+				r.Check(len(his) == 1 && his[0] == winDec{1, 0, -2}, ruleA, construct+"|last-slot", p.Pos(fs.Pos()), "last slot = first slot of the next period - 2",
+					fmt.Sprintf("last slot readings %v: expected exactly FirstSlotOfEpoch(firstEpochOfSyncPeriod(period+1))-2 (the slot before the period's last slot; the next period starts messaging at its first slot - 1)", his))
+				// no reading of the first slot may start before first-1 or skip slots at the start beyond the clamps
+				for _, lo := range los {
+					if lo.pk != 0 || lo.ek != 0 || (lo.sk != -1 && lo.sk != 0) {
+						r.Violate(ruleA, construct+"|first-slot-alt", p.Pos(fs.Pos()), fmt.Sprintf("a path computes the first slot as FirstSlotOfEpoch(firstEpochOfSyncPeriod(period%+d)%+d)%+d", lo.pk, lo.ek, lo.sk))
+					}
+				}
+			}
+			// exits: none; skips: only the current-slot skip
+			ex := l.EarlyExits()
+			r.Check(len(ex) == 0, ruleA, construct+"|no-early-exit", p.Pos(fs.Pos()), "the window loop is only left by exhaustion", "the window loop can be left early")
+			conts := continuesIn(l)
+			for i, c := range conts {
+				cond := enclosingIfCond(l, c)
+				okc := cond != nil && strings.Contains(types.ExprString(cond), "CurrentSlot()") && strings.Contains(types.ExprString(cond), "notCurrentSlot") && strings.Contains(types.ExprString(cond), "&&")
+				r.Check(okc, ruleA, fmt.Sprintf("%s|skip#%d", construct, i+1), p.Pos(c.Pos()), "the only skipped slot is the current one when notCurrentSlot is set", "a slot of the window is skipped under condition "+exprOrNone(cond))
+			}
+			// the scheduling / cancelling happens inside
+			hasJob := false
+			for _, g := range core.WithClosures(f) {
+				for _, ci := range core.CallsNamed(g, "ScheduleJob", "CancelJob", "CancelJobIfExists") {
+					if l.Contains(ci.Pos()) {
+						hasJob = true
+					}
+				}
+			}
+			r.Check(hasJob, ruleA, construct+"|job-per-slot", p.Pos(fs.Pos()), "a job is scheduled/cancelled per slot of the window", "no job is scheduled or cancelled inside the window loop")
+		}
+	}
+	r.Floor(ruleA+" sync-committee window loops", nWin, 2)
+
+	// ---- (b) guarded subtraction in the functions with window loops ----
+	nSub := 0
+	for _, f := range p.FuncsIn(ctrlRel) {
+		if f.Name() != "scheduleSyncCommitteeMessages" && f.Name() != "refreshSyncCommitteeDutiesForEpochPeriod" && !hasWindowLoop(p, ds, f) {
+			continue
+		}
+		for _, s := range core.UnsignedSubs(f) {
+			nSub++
+			xd, yd := ds.D(s.X), ds.D(s.Y)
+			construct := core.FnKey(f) + "|sub|" + xd.String() + " - " + yd.String()
+			if safeSubForm(xd, yd) {
+				r.Hold(ruleB, construct, p.Pos(s.Pos()), "minuend is FirstSlotOfEpoch(e+k)/firstEpochOfSyncPeriod(p+k), k>=1: cannot wrap")
+				continue
+			}
+			w := core.SubUnguarded(ds, f, s)
+			r.Check(w == nil, ruleB, construct, p.Pos(s.Pos()), "subtraction is guarded", "unsigned slot/epoch subtraction can wrap (e.g. period 0 of a chain with Altair at genesis): no guard establishes minuend >= subtrahend", p.WitnessText(w)...)
+		}
+	}
+	r.Floor(ruleB+" subtractions in window functions", nSub, 4)
+
 }
 
 func exprOrNone(e ast.Expr) string {
